@@ -758,6 +758,7 @@ package catalog
 //@   requires d.Parent != nil ==> (forall j :: 0 <= j && j < len(d.Parent.Children) ==> DirWF(d.Parent.Children[j]))
 //@   modifies c.Tags.mx, c.Tags.data, c.Tags.order, mapof(c.Tags.data)
 //@   ensures [C19] ret1 == nil ==> len(ret0) >= 1
+//@   ensures [C09] ret1 == nil ==> (forall k :: 0 <= k && k < len(ret0) ==> ret0[k] != nil)
 //@   ensures [C19] ret1 == nil && ownTags(d) != nil ==> len(ret0) == len(ownTags(d).unnamedParameters)
 //@        && (forall k :: 0 <= k && k < len(ret0) ==> ret0[k] == old(c.Tags.data[ownTags(d).unnamedParameters[k]]))
 //@   ensures [C19] ret1 == nil && ownTags(d) == nil && urlTags(d) != nil ==> len(ret0) == len(urlTags(d).unnamedParameters)
@@ -824,6 +825,29 @@ package catalog
 //@   unclaimed #requires@NewHTTPResponseBody schema compilation is not under contract
 //@   unclaimed #requires@Update see above
 //@   unclaimed #requires@String see AddHTTPMethod
+
+// ---------------------------------------------------------------- tags and interactions reference each other (C09)
+// tagNames returns the names of exactly the tags that tags() resolved, in order, and registers the interaction with each of
+// them: as many registrations (ghost counter tagAppends, bumped by Tag.appendInteractionID) as names returned.
+//@ ghostvar tagAppends int
+//@ func (*Tag).appendInteractionID
+//@   tag C09
+//@   trusted
+//@   requires t != nil
+//@   modifies heap(Tag.InteractionGroups), heap(TagInteractionGroup.Interactions)
+//@   ghostensures tagAppends == old(tagAppends) + 1
+//@ func (*Catalog).tagNames
+//@   tag C09 C01
+//@   requires c != nil && RepInvTags(c.Tags) && TagsNamed(c.Tags) && c.Tags.mx == 0 && !isnil(id)
+//@   requires forall j :: 0 <= j && j < len(d.Children) ==> DirWF(d.Children[j])
+//@   requires d.Parent != nil ==> (forall j :: 0 <= j && j < len(d.Parent.Children) ==> DirWF(d.Parent.Children[j]))
+//@   ensures [C09] ret1 == nil ==> len(ret0) >= 1 && tagAppends == old(tagAppends) + len(ret0)
+//@   ensures [C09] ret1 != nil ==> tagAppends == old(tagAppends)
+//@   loop 1 invariant 0 - 1 <= rangeindex && rangeindex <= rangelen - 1 && rangelen == len(tt) && len(tns) == rangeindex + 1 && rangelen >= 1
+//@   loop 1 invariant tagAppends == old(tagAppends) + rangeindex + 1
+//@   loop 1 invariant forall k :: 0 <= k && k < len(tt) ==> tt[k] != nil
+//@   loop 1 invariant forall k :: 0 <= k && k <= rangeindex ==> tns[k] == tt[k].Name
+//@   loop 1 decreases rangelen - rangeindex
 
 // ---------------------------------------------------------------- BaseUrl (C11: second singleton child, unknown server; C17: stored as written)
 //@ func (*Catalog).AddBaseURL
